@@ -368,6 +368,7 @@ func writeEvidence(v *Verifier, vdir, prop, tier string, seed int, agg map[strin
 		"64-bit integer + - * treated as mathematical (no wrap-around); <=32-bit arithmetic and all conversions wrap exactly",
 		"distinct symbolic pointers/slices reaching a function through parameters are assumed not to alias unless syntactically equal",
 		"append modelled as always allocating a fresh backing array",
+		"frame: every function under contract gets the obligations frame/ghost and frame/heap (pre-existing cells written only where a modifies clause allows; 'modifies heap.all' marks an entry point whose frame no caller may use); exempt from frame/heap: objects first obtained as results of contract-applied calls, pointer values havocked at a loop cut (assumed loop-allocated) and new targets of pointer fields a callee declared modified; 'modifies <map>' also covers the objects stored in that map",
 		"calls to log/fmt/metrics/time functions have no effect on heap or ghost state and do not panic",
 		"panic paths are analysed only in functions whose contract says nopanic; elsewhere run-time panic conditions are assumed not to occur",
 		"goroutine bodies are not executed in the spawner; sync primitives are atomic",
